@@ -15,7 +15,7 @@ TAGGED = True
 SHARD = 60
 TABLE_DEPS = ["opt_binops", "opt_unaryops", "opt_compareops", "opt_isops", "opt_terminators",
               "opt_expr_droppable", "opt_visitors", "opt_ctx_openers", "opt_contains_swapped", "opt_is_uses_eq",
-              "opt_try_keeps_finally"]
+              "opt_try_keeps_finally", "opt_ctx_fresh"]
 WORKER_ENV = {"VERIF_CASE_SOFT_TIMEOUT": "600"}
 RULE = ("every top-level form (ast.Module) the real optimizer visits while the listed namespaces are compiled from "
         "source (quick: basilisp.core and four small namespaces; thorough: every bundled namespace), plus the forms of "
@@ -43,6 +43,11 @@ WITNESS_PROGRAMS = [
     "(import operator) (fn* [a b] (operator/add a b))",
     "(defn verif-c15-outer [] (def verif-c15-gy 1) (fn ^:async verif-c15-inner [] (def verif-c15-gy 2)))",
     "(defn verif-c15-f [c] (if c (do (def verif-c15-gx 2) 1) (do (throw (python/ValueError \"x\")) (def verif-c15-gx 1))))",
+    # `global` is per Python function: a nested (non-async) fn declaring the same name again must keep its own
+    # declaration; the same name declared twice in ONE function body is de-duplicated
+    "(defn verif-c15-outer2 [] (def verif-c15-gz 1) (fn verif-c15-inner2 [] (def verif-c15-gz 2)))",
+    "(defn verif-c15-outer3 [] (def verif-c15-gw 1) (fn [] (fn [] (def verif-c15-gw 3) (def verif-c15-gw 4))) (def verif-c15-gw 5))",
+    "(defn verif-c15-outer4 [] (fn [] (def verif-c15-gv 1)) (def verif-c15-gv 2) (fn [] (def verif-c15-gv 3)))",
 ]
 
 QUICK_NS = [("basilisp.core", 900), ("basilisp.string", 80), ("basilisp.set", 60), ("basilisp.walk", 60),
